@@ -38,6 +38,8 @@ class Abort(BaseException):
 class Monitor:
     def __init__(self):
         self.active = False
+        self.building = False
+        self.initial_prob = {}
 
     def reset(self, world, max_steps=4000):
         self.active = True
@@ -77,6 +79,7 @@ class Monitor:
         self.parents = {}  # task key -> (terminal?, [parent keys]); filled lazily from the spec
         self.spec_jobs = {}
         self.idle_checks = 0
+        self.initial_prob = {}  # task key -> probability right after instantiation
         self.state_ops = 0  # bumped by every ledger operation and task transition
         self.sched_loop = (None, None, 0)  # (clock, state_ops, repeats)
 
@@ -390,13 +393,28 @@ def install():
 
     Workload.get_schedulable_tasks = get_schedulable_tasks
 
+    # ---- task-graph instantiation (probabilities right after submission) -------------
+    from workload import JobGraph
+
+    o_gen = JobGraph._generate_task_graph
+
+    def _generate_task_graph(self, *a, **kw):
+        tg = o_gen(self, *a, **kw)
+        if MON.active or MON.building:
+            for t in tg.get_nodes():
+                MON.initial_prob[tkey(t)] = t.probability
+        return tg
+
+    JobGraph._generate_task_graph = _generate_task_graph
+
 
 def wrap_policy(policy, sim_ref, hooks=None):
     """Instance-level wrapper around policy.schedule recording inputs and answers."""
     orig = policy.schedule
 
     def schedule(sim_time, workload, worker_pools):
-        rec = {"time": us(sim_time), "offers": [], "offer_objs": [], "seq": MON.tick(), "error": None, "placements": []}
+        rec = {"time": us(sim_time), "offers": [], "offer_objs": [], "seq": MON.tick(), "error": None, "placements": [],
+               "resident": len(MON.resident)}
         MON.in_schedule = rec
         if hooks and hooks.get("before"):
             hooks["before"](rec, sim_time, workload, worker_pools)
@@ -440,8 +458,15 @@ def run_world(spec, hooks=None, max_steps=4000, prepare=None):
     """Build and simulate the world; returns a RunRecord with every observation."""
     install()
     env.reset_case(spec["seed"])
-    world = build.build_world(spec)
+    MON.building = True
+    MON.initial_prob = {}
+    try:
+        world = build.build_world(spec)
+    finally:
+        MON.building = False
+    ip = MON.initial_prob
     MON.reset(world, max_steps=max_steps)
+    MON.initial_prob = ip
     rec = RunRecord()
     rec.spec = spec
     rec.world = world
